@@ -812,17 +812,27 @@ theorem history_failed_saves_invisible (e : Nat) (fs0 fs : FS) (steps : List Ste
     (any number of failing calls, any errno or exception class; no other process interfering, no injected
     ENOENT - which `os.stat` answers by "absent"): what `runScript` records of its own calls (`M.obs`: every
     call that went through with its effect, every call that reported an error with its flags) is a trace
-    that `Accept` accepts - outside the one region excluded throughout (overwrite=False: the `link`
-    succeeded and the `unlink` of the part file after it failed, i.e. an exception although published).
+    that `Accept` accepts - with NO excluded region (round 3b): also the runs with overwrite=False in which the
+    `link` succeeded and the `unlink` of the part file after it failed, i.e. an exception although published
+    (excluded until `no_listed_failure_before_publication` below was proved).
     So `Accept` is satisfiable under arbitrary faults, and the `accepted_*` theorems apply to the very runs
     the theorems about `runScript` speak of.  (The check compares `M.obs` token by token with the trace
     recorded on the real code in every case.) -/
 theorem transliteration_runs_are_accepted (cfg : Cfg) (sc : Script) (plan : Plan) (fs0 : FS) (e : Nat)
-    (hne : ∀ k, plan k ≠ .appear) (hnn : ∀ k, plan k ≠ .fail ENOENT)
-    (hreg : out cfg sc plan fs0 e = .ok ∨ (fin cfg sc plan fs0 e).published = false) :
+    (hne : ∀ k, plan k ≠ .appear) (hnn : ∀ k, plan k ≠ .fail ENOENT) :
     Accept cfg sc.raises (decide (out cfg sc plan fs0 e = .ok)) sc.content fs0.umask fs0.destMode
       (fin cfg sc plan fs0 e).obs = true :=
-  runScript_accepted cfg sc plan fs0 e hne hnn hreg
+  runScript_accepted cfg sc plan fs0 e hne hnn
+
+/-- **The transliteration attempts the publication only when everything before it went through**: under every plan
+    without interference, if its record contains a publication (rename / link onto the destination) then no listed
+    step (creating or chmod-ing the part file, write, flush, fsync, close, link / rename) reported an error before it.
+    (Proved by a walk through `setup` / the block / `__exit__` / `atomic_rename` with a result-dependent invariant,
+    Region.lean; it is what closes the formerly excluded region of `transliteration_runs_are_accepted`.) -/
+theorem no_listed_failure_before_publication (cfg : Cfg) (sc : Script) (plan : Plan) (fs0 : FS) (e : Nat)
+    (hne : ∀ k, plan k ≠ .appear) (hpub : publishes (oks (fin cfg sc plan fs0 e).obs) = true) :
+    failedBefore (fin cfg sc plan fs0 e).obs = false :=
+  runScript_pubClean cfg sc plan fs0 e hne hpub
 
 /-- for EVERY plan (interference included) the recorded observations are faithful bookkeeping: their
     successful events are the recorded events (up to calls without effect), a listed failure is counted
@@ -953,11 +963,18 @@ example : Accept {} false true [78, 69, 87] 0o022 (some 0o640) obsOtherOrder = t
     (replay (M.start fsEx 1) obsOtherOrder).isSome = true ∧ publishes (oks obsOtherOrder) = true ∧
     hasAppear obsOtherOrder = false := by decide
 -- the transliteration's own record of the run in which fsync fails (fsEx: destination present, mode 0o640) is the
--- trace `obsFsyncFails` above - and it is accepted; the excluded region is not empty
+-- trace `obsFsyncFails` above - and it is accepted; the formerly excluded region is not empty
 example : (fin {} bodyEx (failAt 7 5) fsEx 1).obs = obsFsyncFails ∧
     (fin {} bodyEx (failAt 7 5) fsEx 1).published = false := by decide
 example : out { overwrite := false, overwritePart := true } bodyEx (failAt 10 1) fsEx2 1 ≠ .ok ∧
     (fin { overwrite := false, overwritePart := true } bodyEx (failAt 10 1) fsEx2 1).published = true := by decide
+-- ... and that run (the formerly excluded region: exception although published) is accepted as well; its record ends
+-- with the link, the unlink that the plan made fail, and the cleanup unlink that went through
+example : Accept { overwrite := false, overwritePart := true } false false [78, 69, 87] fsEx2.umask fsEx2.destMode
+      (fin { overwrite := false, overwritePart := true } bodyEx (failAt 10 1) fsEx2 1).obs = true ∧
+    (fin { overwrite := false, overwritePart := true } bodyEx (failAt 10 1) fsEx2 1).obs.drop 9 =
+      [.ok .linkPartDest, .fail false true true, .ok .unlinkPart] ∧
+    failedBefore (fin { overwrite := false, overwritePart := true } bodyEx (failAt 10 1) fsEx2 1).obs = false := by decide
 -- a history: the save whose fsync fails, then the completed one (from the state the first left)
 def mEx1 : M := (replay (M.start fsEx 1) obsFsyncFails).get (by decide)
 def mEx2 : M := (replay (M.start mEx1.fs 1) obsOtherOrder).get (by decide)
